@@ -7,6 +7,7 @@ field; generated dictionaries nest every value type of the alphabet inside
 dicts and lists to depth 2; the start-up configuration file is written for
 keyword arguments holding non-serialisable values and read back with json.
 """
+import functools
 import itertools
 import json
 import math
@@ -325,6 +326,18 @@ def _callback(ns):
     return None
 
 
+def _callback_tag(ns, tag=None):
+    return None
+
+
+class _CallableObject:
+    def __call__(self, ns):
+        return None
+
+    def method(self, ns):
+        return None
+
+
 def config_worker(seed):
     import multiprocessing
     import torch
@@ -342,6 +355,10 @@ def config_worker(seed):
             "class-uninformed": dict(uninformed_proposal=RejectionProposal),
             "function": dict(checkpoint_callback=_callback),
             "lambda": dict(checkpoint_callback=lambda ns: None),
+            "partial": dict(checkpoint_callback=functools.partial(_callback_tag, tag="a")),
+            "callable-object": dict(checkpoint_callback=_CallableObject()),
+            "bound-method": dict(checkpoint_callback=_CallableObject().method),
+            "builtin": dict(checkpoint_callback=print),
             "pool": dict(pool=pool),
             "torch-dtype": dict(torch_dtype=torch.float64),
             "torch-dtype-str": dict(torch_dtype="float32"),
